@@ -475,10 +475,13 @@ class Graph:
         # closure
         i = 0
         self.next = []
+        self.next_nr = []       # output number of the child each edge points to
         while i < len(self.nodes):
             nd = self.nodes[i]
             self.next.append([self._id(c) if c is not None else None for c, _ in nd.next_functions])
+            self.next_nr.append([int(k) for _, k in nd.next_functions])
             i += 1
+        self.onr = [int(t.output_nr) for t in tensors]
         self.acc, self.saved = [], []
         for nd in self.nodes:
             if type(nd).__name__ == "AccumulateGrad":
@@ -539,8 +542,16 @@ def c_prog(name, prog: Program, graph: Graph | None, Dpairs, expects=None):
         nxt = "[" + "; ".join("[" + "; ".join(c_optnat(c) for c in cs) + "]" for cs in graph.next) + "]"
         acc = "[" + "; ".join(c_optnat(x) for x in graph.acc) + "]"
         saved = "[" + "; ".join(c_bool(x) for x in graph.saved) + "]"
+    if graph is None:
+        eg = "mk_egraph [] []"
+    else:
+        ne = "[" + "; ".join("[" + "; ".join(
+            "None" if c is None else f"(Some ({c}%nat, {k}%nat))" for c, k in zip(cs, ks)) + "]"
+            for cs, ks in zip(graph.next, graph.next_nr)) + "]"
+        eg = f"mk_egraph {ne} {c_natlist(graph.onr)}"
     return (f"Definition {name} : prog Q := mk_prog {shapes}\n  {D}\n  {reach}\n  {req}\n  {exp}\n"
-            f"  {gfn}\n  {edge}\n  {nxt}\n  {acc}\n  {saved}.\n")
+            f"  {gfn}\n  {edge}\n  {nxt}\n  {acc}\n  {saved}.\n"
+            f"Definition E{name} : egraph := {eg}.\n")
 
 
 def c_store(grads: dict, freed=(), nxt=1000):
@@ -669,6 +680,7 @@ def gen_mtl(rng: random.Random, overlap=False, nested=None, bound=2 ** 20):
             continue
         shared = [t for t in range(p.n()) if p.is_leaf[t] and p.req[t] and any(p.reach(f, t) for f in feats)]
         trunk_leaves = [t for t in range(p.n()) if p.is_leaf[t] and p.req[t]]
+        n_trunk = p.n()
         nt = rng.randint(1, 4)
         losses, tasks, pool = [], [], []
         ok = True
@@ -709,10 +721,22 @@ def gen_mtl(rng: random.Random, overlap=False, nested=None, bound=2 ** 20):
                 b2 = p.leaf(p.shapes[f0], _rand_vals(rng, p.shapes[f0]), True)
                 pool += [b1, b2]
                 params += [b1, b2]
-                terms.append(p.op("sum", [p.op("add", [p.op("add", [f0, b1]), b2])]))
+                if rng.random() < 0.5:
+                    terms.append(p.op("sum", [p.op("add", [p.op("add", [f0, b1]), b2])]))
+                else:
+                    # W_eff = base + offset used multiplicatively: the shared gradient tensor is a fresh,
+                    # contiguous, non-view tensor
+                    terms.append(p.op("sum", [p.op("mul", [p.op("add", [b1, b2]), f0])]))
             if overlap and trunk_leaves and (ti == 0 or rng.random() < 0.4):
-                x = rng.choice(trunk_leaves)
-                terms.append(p.op("sum", [x]))
+                # a head reaches the trunk AROUND the features: directly through a trunk leaf, or
+                # through a hidden trunk activation (skip connection) that is not a feature
+                hidden = [t for t in range(n_trunk) if p.req[t] and not p.is_leaf[t] and t not in feats]
+                if hidden and rng.random() < 0.6:
+                    x = rng.choice(hidden)
+                    terms.append(p.op("sum", [p.op("square", [x])] if rng.random() < 0.5 else [x]))
+                else:
+                    x = rng.choice(trunk_leaves)
+                    terms.append(p.op("sum", [x]))
             loss = terms[0]
             for t in terms[1:]:
                 loss = p.op("add", [loss, t])
@@ -785,12 +809,12 @@ def model_call_expr(pname, call, store):
     sig = call.get("sigma", "(fun l => l)")
     if call["entry"] == "backward":
         if call["inputs"] is None:
-            return f"backward_default QN {pname} {A} {sig} {c_natlist(call['tensors'])} {kk} {rt} {store}"
+            return f"backward_default QN {pname} E{pname} {A} {sig} {c_natlist(call['tensors'])} {kk} {rt} {store}"
         ordl = call.get("ord", list(dict.fromkeys(call["inputs"])))
         return f"backward_model QN {pname} {A} {c_natlist(call['tensors'])} {c_natlist(ordl)} {kk} {rt} {store}"
     tasks = c_optlist(call["tasks"], c_listlist)
     shared = c_optlist(call["shared"], c_natlist)
-    return (f"mtl_backward_default QN {pname} {A} {sig} {c_natlist(call['losses'])} "
+    return (f"mtl_backward_default QN {pname} E{pname} {A} {sig} {c_natlist(call['losses'])} "
             f"{c_natlist(call['features'])} {tasks} {shared} {kk} {rt} {store}")
 
 
